@@ -550,7 +550,10 @@ def designation(inst):
 
 
 def symbol_names(inst):
-    return inst.get("symnames") or [f"a{i}" for i in range(inst["k"])]
+    names = inst.get("symnames")
+    if names and len(names) >= inst["k"]:
+        return list(names[: inst["k"]])
+    return [f"a{i}" for i in range(inst["k"])]
 
 
 def present(inst):
